@@ -84,6 +84,64 @@ CHECKS = {
              "sequences equal to the reference, non-decreasing timestamps, nothing skipped before the stop point, justified and not-early "
              "stop, LP_FINI once per LP last.",
         note="Reference shares the handler and msg_is_before with the runtime (C16 covers the relation)."),
+    "C01": dict(engine="rsched", technique="preemption/deviation-bounded exhaustive exploration of the real runtime under a deterministic scheduler (fork per execution, delay-bounded levels); reference executor as oracle", level="model_checking", design_ref="DESIGN.md 4/C01",
+        text="Every schedule with <=1 non-default decision (2 on two models; thorough 2-3) of RootsimRun on 12 rollback-heavy models x "
+             "configurations (threads 2-3, checkpoint interval 1-3/auto, GVT period 0/never) + 50 (thorough 3000) grammar models at p=0: "
+             "end state, every committed event and state hash, state after every rollback equal the sequential reference.",
+        note="Call-granularity interleavings; vmodel grammar; <=4 LPs, <=3 threads; sequentially consistent memory."),
+    "C02": dict(engine="rsched", technique="preemption/deviation-bounded exhaustive exploration of the real runtime under a deterministic scheduler (fork per execution, delay-bounded levels) with 2-3 symbol-renamed copies of the core and an in-process MPI exploring delivery deviations",
+        level="model_checking", design_ref="DESIGN.md 4/C02",
+        text="2 ranks x 1-2 threads (thorough also 3 ranks): all executions with <=1 scheduling deviation and <=1 MPI deviation (delay, "
+             "inter-sender reordering so that anti-messages overtake, delayed collective completion; d<=2 on one model): same oracles as "
+             "C01 plus GVT agreement across ranks and nothing below a reported GVT in flight.",
+        note="In-process MPI is my reading of MPI-3.1; <=3 ranks."),
+    "C03": dict(engine="rsched", technique="preemption/deviation-bounded exhaustive exploration of the real runtime under a deterministic scheduler (fork per execution, delay-bounded levels); commit-log oracle at every fossil collection", level="model_checking", design_ref="DESIGN.md 4/C03",
+        text="Long trickling models with back-to-back GVT rounds, runs ended by predicate/exhaustion, termination time, RootsimStop from a "
+             "handler and an external thread, p<=1 (thorough 2): every entry leaving a history below the GVT is, in order and content and "
+             "state hash, the next event of the sequential per-LP sequence; nothing at or above the GVT is released.",
+        note="One rank here (two ranks under C02); call granularity."),
+    "C04": dict(engine="rsched", technique="preemption/deviation-bounded exhaustive exploration of the real runtime under a deterministic scheduler (fork per execution, delay-bounded levels) with every atomic of the GVT/termination/queue code as scheduling point", level="model_checking",
+        design_ref="DESIGN.md 4/C04",
+        text="Fine-grained interleavings (p<=1; thorough p<=2) of the GVT reduction with message traffic on tiny models, 2-3 threads, plus "
+             "call-granularity p<=2: per-thread GVT sequences monotone and equal, no extraction/rollback below a told value, nothing "
+             "below it queued or in flight at the moment it is told.",
+        note="Sequentially consistent interleavings; relaxed orderings not modelled; rank-level colouring under C02."),
+    "C06": dict(engine="rsched", technique="preemption/deviation-bounded exhaustive exploration of the real runtime under a deterministic scheduler (fork per execution, delay-bounded levels) with the message flag words and queue atomics as scheduling points; buffer life-cycle monitor",
+        level="model_checking", design_ref="DESIGN.md 4/C06",
+        text="Cancellation racing with extract/process/rollback/re-queue (all four positions observed), cascades, 40-byte payloads, remote "
+             "cancellation incl. early anti-messages on 2 ranks: no double/early release, no use after release, exactly-once effects via "
+             "the committed hashes.",
+        note="Releases inside msg_allocator.c are mirrored, not observed."),
+    "C07": dict(engine="rsched", technique="preemption/deviation-bounded exhaustive exploration of the real runtime under a deterministic scheduler (fork per execution, delay-bounded levels); termination legitimacy oracle against the reference execution", level="model_checking",
+        design_ref="DESIGN.md 4/C07",
+        text="Predicate kinds (monotone, non-monotone, true at init, first true at timestamp 0, never) x models x 1-3 threads x p<=1 "
+             "(thorough 2): RootsimRun returns only if the largest GVT reached the termination time or every LP's predicate held on a "
+             "committed reference state.",
+        note="Finite models; call granularity."),
+    "C08": dict(engine="rsched", technique="preemption/deviation-bounded exhaustive exploration of the real runtime under a deterministic scheduler (fork per execution, delay-bounded levels); deadlock = all live threads parked (confirmed), livelock = step budget", level="model_checking",
+        design_ref="DESIGN.md 4/C08",
+        text="Termination by predicate/time/exhaustion/RootsimStop (handler, external thread at a grid of points) against in-progress GVT "
+             "rounds at atomic granularity, same-timestamp chains longer than a loop iteration (also at timestamp 0), 1-2 ranks: every "
+             "execution returns with LP_FINI once per LP. Three shutdown defects are recorded as known findings.",
+        note="Liveness under the fair default continuation after <=p deviations; known findings identified by exact site sets."),
+    "C09": dict(engine="rsched", technique="preemption/deviation-bounded exhaustive exploration of the real runtime under a deterministic scheduler (fork per execution, delay-bounded levels) over the configuration matrix; all cells compared with one reference", level="model_checking",
+        design_ref="DESIGN.md 4/C09",
+        text="7 RNG-driven models (every library distribution) x threads{1,2,3} x checkpoint{1,2,3,auto} x GVT period{0,never} x ranks{1,2}: "
+             "first draws of every LP, all committed hashes (incl. generator state), state after rollbacks and silent re-execution equal "
+             "the reference in every cell.",
+        note="One seed; core binding replaced."),
+    "C20": dict(engine="rsched", technique="preemption/deviation-bounded exhaustive exploration of the real runtime under a deterministic scheduler (fork per execution, delay-bounded levels); independent reader of the statistics file + occurrence shadow", level="model_checking",
+        design_ref="DESIGN.md 4/C20",
+        text="Statistics file of every explored execution (4 models x threads x GVT period x endings, p<=1) parsed per the documented "
+             "layout and compared record by record with the occurrences counted by the wrappers; shipped parser as second reader. "
+             "Unequal record counts (off by one) are a recorded known finding.",
+        note="Counters only, one rank."),
+    "C11": dict(engine="rsched", technique="the bounded exhaustive enumerations of the other checks re-run on ASan+UBSan builds of the core",
+        level="model_checking", design_ref="DESIGN.md 4/C11",
+        text="Whole runtime (parallel, 2-rank, ended by time/stop, 40-byte payloads, multi-arena memory), serial runtime on the grammar, "
+             "allocator/checkpoint/fossil enumerators, numerical and topology libraries under AddressSanitizer+UBSan: any report is the "
+             "violation.",
+        note="Only what ASan/UBSan instrument; pooled buffers via the C06 monitor."),
 }
 
 NOT_YET = "check not built yet (work in progress; see DESIGN.md section 7)"
